@@ -1037,7 +1037,7 @@ package mqtt
 //@ ensures ok <==> has(p.internal, id)
 //@ ensures ok ==> val == p.internal[id]
 //@ ensures forall t string :: p.ggot[t] == old(p.ggot[t]) + ((t == id && ok) ? 1 : 0)
-// verif:func packets.Packets.Len trusted pure
+// verif:func packets.Packets.Len
 //@ requires C32-lock-not-held-by-this-goroutine: p.RWMutex.lheld == 0
 //@ ensures C32-lock-released-on-return: p.RWMutex.lheld == 0
 //@ ensures r0 == len(p.internal) && r0 >= 0 && (r0 == 0 ==> (forall t string :: !has(p.internal, t)))
